@@ -74,23 +74,26 @@ CHECKS = {
         text='Model of the tokenizer (Impl/Tokenizer.v) and of the recursive-descent parser over token lists (Impl/Parser.v). Theorems (Properties/C07.v): '
              'for every expression / policy and EVERY placement of redundant parentheses (fully parenthesised, minimal, anything between) the tokens of the '
              'rendering parse to exactly that tree (literal values of set / record / extension type as the constructor expressions that denote them); string '
-             'and pattern literals read back for every choice of escapes; the parser terminates on every token list. Correspondence: Go parser = model on '
+             'and pattern literals read back for every choice of escapes; the parser terminates on every token list; and at BYTE level (C07_text_tree, Proofs/LexRender.v): the '
+             'bytes of every such rendering, policies separated by any white space, tokenize to the printer\'s tokens and parse to those policies. Correspondence: Go parser = model on '
              '10^4 texts incl. ~230 texts outside the grammar that must be rejected (reserved word x identifier position matrix, chained relations, '
              'duplicates, bad escapes). Direct oracle: independent reference renderer (py/render.py) in three layouts.',
         note=TB + 'Layout (blanks, comments) is handled by the tokenizer: its independence of delivery and exact token texts are C18. Rejection of texts outside the '
                   'grammar is decided by the correspondence and the reject corpus, not by a theorem.',
-        technique='Coq proof (parse o print = id for every parenthesisation, ~2400 lines) + differential correspondence of the parser model + independent reference renderer'),
+        technique='Coq proof (parse o tokenize o render = id for every parenthesisation, ~4600 lines) + differential correspondence of the parser model + independent reference renderer'),
     'C08': dict(
         level='proof', design='§0.2, §6 C08',
         text='Model of cedar_marshal.go + Value.MarshalCedar (Impl/Printer.v, exact bytes and token list) and of the parser (Impl/Parser.v). Theorems '
              '(Properties/C08.v): the tokens of the rendering of every well-formed policy parse back to that policy (effect, annotations, scopes, conditions; '
-             'value literals in the normal form of the text syntax); documents of several policies parse back in order. Correspondence: MarshalCedar bytes = '
+             'value literals in the normal form of the text syntax); documents of several policies parse back in order; at BYTE level the rendered text, read '
+             'through the buffered scanner over EVERY chunking of a non-failing reader, tokenizes and parses back to the policies (C08_streamed_text_roundtrip: '
+             'composition with the C18 refinement). Correspondence: MarshalCedar bytes = '
              'model bytes (escaper tables read off the code); parser = model. Direct oracle on the Go code: rendering parses, same head, tree identity modulo the '
              'normal form with a search for a distinguishing environment, evaluation on 4 environments, byte fixpoint, returned bytes not aliased, '
              'set / list / stream order.',
-        note=TB + 'That the normal form preserves evaluation, and that the rendered TEXT lexes to the token list of the model, are decided by the oracle and the '
-                  'printpol / tokens correspondences (plus C18), not by theorems. F27 / F30 / F16 are known findings.',
-        technique='Coq proof (parser reads back the printer model) + byte-level differential correspondence of the printer + Go round-trip oracle'),
+        note=TB + 'That the text normal form preserves evaluation is decided by the oracle (the analogous statement for the JSON normal form is a theorem in C09). '
+                  'F27 / F30 / F16 are known findings.',
+        technique='Coq proof (parse o tokenize o stream o render = id up to the text normal form) + byte-level differential correspondence of the printer + Go round-trip oracle'),
     'C09': dict(
         level='proof', design='§0.2, §6 C09',
         text='Model of internal/json on JSON trees (Impl/PolicyJson.v: MarshalJSON, UnmarshalJSON + ToNode, scopes, policies; values via Impl/ValueJson.v). '
